@@ -113,6 +113,45 @@ var scenarios = [][]string{
 		"c adv 1",
 		"c q wire u2 f t -",
 	},
+	{ // the real prefetch trigger: a hit inside the window claims a refresh; newer state wins
+		"c new 0 f 50",
+		"c q msg n0 f t n0=p:p20:-:600:-",
+		"c adv 5",
+		"c q msg n0 f t -",
+		"c adv 6",
+		"c q dwire n0 f t -",
+		"c q msg n0 f t -",
+		"c pfrun n0=p:p300:-:7:-",
+		"c q msg n0 f t -",
+		"c adv 4",
+		"c q msg n0 f t -",
+		"c purge n0",
+		"c q msg n0 f t n0=x:-:s60/60:-:-",
+		"c pfrun n0=p:p300:-:-:-",
+		"c q msg n0 f t -",
+		"c q msg n1 f t n1=c2:p40:-:-:-;n2=p:p10:-:-:-",
+		"c adv 6",
+		"c q msg n1 f t -",
+		"c pfrun n2=p:p100:-:-:-",
+		"c q dwire n1 f t -",
+	},
+	{ // an alias chain ending in a record-less NXDOMAIN: cached target, and target with the shorter lease
+		"c new 0 f",
+		"c q msg n1 f t n1=x:-:-:-:-",
+		"c adv 2",
+		"c q msg n0 f t n0=c1:p300:-:600:-",
+		"c q wire n0 f t -",
+		"c adv 2",
+		"c q msg n0 f t -",
+		"c adv 1",
+		"c q wire n0 f f -",
+		"c q msg n1 f t -",
+		"c q msg n2 f t n2=c3:p300:-:600:-;n3=x:-:-:20:-",
+		"c adv 19",
+		"c q msg n2 f t -",
+		"c adv 1",
+		"c q wire n2 f t -",
+	},
 	{ // DNS64: the synthetic AAAA is composed from the A answer and the AAAA NODATA, of differing ages
 		"c new 0 f",
 		"c q msg m0 f t m0=d:-:s300/300:-:-;n0=p:p250,p250:-:-:-",
@@ -367,6 +406,7 @@ type genHist struct {
 	tgtOf    map[string]string
 	cuts     []int
 	proofs   []int
+	pf       int // prefetch threshold of the case (0 = off)
 }
 
 // pickD: an RRSIG window.  Outside aligned cases a signature must not be the
@@ -461,8 +501,10 @@ func (g *genHist) genSpec(name string, kind byte, tgt int, ecs bool) string {
 	type soaT struct{ ttl, min int64 }
 	var nsPlain []int64
 	var soa *soaT
-	switch kind {
-	case 'x', 'd':
+	bare := kind == 'x' && r.Chance(1, 4) // a record-less NXDOMAIN: no SOA, no proof
+	switch {
+	case bare:
+	case kind == 'x' || kind == 'd':
 		soa = &soaT{ttlVar(), ttlVar()}
 		if r.Chance(1, 3) {
 			soa.min = vlib.Pick(r, []int64{0, 1, 5, 6, 30, 3600, 100000})
@@ -472,7 +514,7 @@ func (g *genHist) genSpec(name string, kind byte, tgt int, ecs bool) string {
 		if r.Chance(1, 4) {
 			nsPlain = append(nsPlain, ttlVar())
 		}
-	case 'e':
+	case kind == 'e':
 		if r.Chance(1, 2) {
 			nsPlain = append(nsPlain, ttlVar())
 		}
@@ -560,13 +602,25 @@ func (g *genHist) pickKind(idx int) (byte, int) {
 }
 
 func (g *genHist) route() string {
+	if g.pf > 0 {
+		// the wire chase composer deliberately does not tick the hops' prefetch
+		// machinery; with prefetch on, the claims are compared on the decoded routes
+		return vlib.Pick(g.r, []string{"msg", "dwire"})
+	}
 	return vlib.Pick(g.r, []string{"msg", "dwire", "wire", "wire"})
 }
 
 func genHistCase(r *vlib.R, emit func(string)) int {
 	g := &genHist{r: r, aligned: r.Chance(1, 4), cap: vlib.Pick(r, []int64{0, 0, 3, 7, 60, 100000}),
 		interest: map[int64]bool{}, admitted: map[string]bool{}, captured: map[string]bool{}, tgtOf: map[string]string{}}
-	emit(fmt.Sprintf("c new %d %s", g.cap, vlib.B(g.aligned)))
+	if !g.aligned && r.Chance(3, 10) {
+		g.pf = vlib.Pick(r, []int{25, 50, 75})
+	}
+	if g.pf > 0 {
+		emit(fmt.Sprintf("c new %d %s %d", g.cap, vlib.B(g.aligned), g.pf))
+	} else {
+		emit(fmt.Sprintf("c new %d %s", g.cap, vlib.B(g.aligned)))
+	}
 	steps := 12 + r.Intn(22)
 	if g.aligned {
 		steps = 10 + r.Intn(12)
@@ -581,8 +635,19 @@ func genHistCase(r *vlib.R, emit func(string)) int {
 			name := fmt.Sprintf("n%d", i)
 			ttl := vlib.Pick(r, []int64{5, 6, 10, 12, 30, 60, 300})
 			kind := fmt.Sprintf("c%d", i+1)
+			body := fmt.Sprintf("p%d:-", ttl)
 			if i == start+n-1 {
-				kind = "p"
+				// the terminal: mostly addresses, sometimes a denial — with or without an SOA
+				switch r.Intn(10) {
+				case 0, 1:
+					kind, body = "x", "-:-"
+				case 2:
+					kind, body = "x", fmt.Sprintf("-:s%d/%d", ttl, ttl)
+				case 3:
+					kind, body = "d", fmt.Sprintf("-:s%d/%d", ttl, ttl)
+				default:
+					kind = "p"
+				}
 			}
 			lease := "-"
 			if r.Chance(1, 5) {
@@ -592,7 +657,7 @@ func genHistCase(r *vlib.R, emit func(string)) int {
 			}
 			g.note(ttl)
 			g.note(5)
-			emit(fmt.Sprintf("c q %s %s f %s %s=%s:p%d:-:%s:-", g.route(), name, vlib.B(r.Bool()), name, kind, ttl, lease))
+			emit(fmt.Sprintf("c q %s %s f %s %s=%s:%s:%s:-", g.route(), name, vlib.B(r.Bool()), name, kind, body, lease))
 			g.admitted[name] = true
 			count++
 			if hist != nil && hist.taint {
@@ -608,7 +673,11 @@ func genHistCase(r *vlib.R, emit func(string)) int {
 			if hist != nil && hist.taint {
 				return count
 			}
-			emit(fmt.Sprintf("c q wire %s f %s -", head, vlib.B(r.Bool())))
+			rt := "wire"
+			if g.pf > 0 {
+				rt = g.route()
+			}
+			emit(fmt.Sprintf("c q %s %s f %s -", rt, head, vlib.B(r.Bool())))
 			emit(fmt.Sprintf("c adv %d", g.pickAdvance()))
 			count += 2
 		}
@@ -671,6 +740,23 @@ func genHistCase(r *vlib.R, emit func(string)) int {
 			break // a slow op may have stamped entries late, or the second is used up: end the case
 		}
 		count++
+		if g.pf > 0 && len(g.admitted) > 0 && r.Chance(1, 8) {
+			// complete the refreshes real hits have claimed so far
+			var specs []string
+			for q := 0; q < 1+r.Intn(2); q++ {
+				name := g.anyAdmitted()
+				kind, t2 := g.pickKind(int(name[1] - '0'))
+				if kind == 'c' {
+					kind, t2 = 'p', 0
+				}
+				specs = append(specs, g.genSpec(name, kind, t2, false))
+			}
+			if len(specs) == 2 && strings.SplitN(specs[0], "=", 2)[0] == strings.SplitN(specs[1], "=", 2)[0] {
+				specs = specs[:1]
+			}
+			emit("c pfrun " + strings.Join(specs, ";"))
+			continue
+		}
 		switch k := r.Intn(100); {
 		case k < 28 || len(g.admitted) == 0:
 			idx := r.Intn(nNames)
